@@ -110,6 +110,7 @@ def _one(args):
 def run_mutants(spec, engines, tier, budget, seed):
     from .run import spec_path
     jobs = []
+    srcs = {}
     per_target_cap = 10 if tier == "quick" else 10 ** 6
     for e in engines:
         t = e.target
@@ -124,6 +125,7 @@ def run_mutants(spec, engines, tier, budget, seed):
             stride = len(ss) / float(per_target_cap)
             ss = [ss[int(i * stride)] for i in range(per_target_cap)]
         for mid, desc in ss:
+            srcs[(t.ref, mid)] = e.lines[desc[1] - 1].strip() if 0 < desc[1] <= len(e.lines) else ""
             jobs.append((spec_path(spec.prop), spec.prop, t.ref, mid, desc, min(budget, 5)))
     if not jobs:
         return None
@@ -138,8 +140,16 @@ def run_mutants(spec, engines, tier, budget, seed):
     errors = [r for r in res if r["status"] == "error"]
     survivors = [r for r in res if r["status"] == "survived"]
     decl = 0
+    import re
     for s in survivors:
+        s["source"] = srcs.get((s["target"], s["id"]), "")
         why = eq.get((s["target"], s["id"]))
+        if not why:
+            # keys may also be regular expressions over "<id> | <source line>"
+            for (tref, k), w in eq.items():
+                if tref == s["target"] and re.search(k, "%s | %s" % (s["id"], s["source"])):
+                    why = w
+                    break
         if why:
             s["declared_equivalent"] = why
             decl += 1
